@@ -214,7 +214,7 @@ PROPS["C20"] = {
     "groups": [
         {
             "mounts": [("c20_selector.rs", "net/selector/mod.rs")],
-            "harnesses": ["c20_token_roundtrip_read", "c20_token_roundtrip_write", "c20_readiness_wakes_only_the_waiter"],
+            "harnesses": ["c20_token_roundtrip_read", "c20_token_roundtrip_write", "c20_readiness_wakes_only_the_waiter", "c20_remaining_waiter_keeps_its_token"],
             "timeout": 300,
         },
     ],
@@ -310,9 +310,13 @@ PROPS["C02"] = {
         {"mounts": [("c02_join.rs", "co_pool/mod.rs")], "subs": _C02_SUBS, "cfgs": ["ocv_small"],
          # (c02_join_returns_own_result - two tasks joined in reverse order - ends with every check UNDETERMINED after 180 s and
          # is not registered; single-task value identity is asserted by every harness below)
-         "harnesses": ['c02_completion_at_point_0', 'c02_completion_at_point_1', 'c02_completion_at_point_2', 'c02_completion_at_point_3', 'c02_completion_at_point_4', 'c02_completion_at_point_5', 'c02_completion_at_point_6', 'c02_completion_at_point_7', 'c02_completion_while_blocked', 'c02_result_reaches_the_waiter_whichever_pool_ran_the_task'],
+         "harnesses": ['c02_completion_at_point_0', 'c02_completion_at_point_1', 'c02_completion_at_point_2', 'c02_completion_at_point_3', 'c02_completion_at_point_4', 'c02_completion_at_point_5', 'c02_completion_at_point_6', 'c02_completion_at_point_7', 'c02_completion_while_blocked', 'c02_rejoin_after_a_timed_out_join_is_woken', 'c02_result_reaches_the_waiter_whichever_pool_ran_the_task'],
          "thorough_harnesses": ['c02_completion_at_point_8', 'c02_completion_at_point_9', 'c02_completion_at_point_10', 'c02_completion_at_point_11', 'c02_completion_at_point_12', 'c02_completion_at_point_13', 'c02_completion_at_point_14', 'c02_completion_at_point_15', 'c02_completion_at_point_16', 'c02_completion_at_point_17', 'c02_completion_at_point_18', 'c02_completion_at_point_19', 'c02_completion_at_point_20', 'c02_completion_at_point_21', 'c02_completion_at_point_22', 'c02_completion_at_point_23'],
          "timeout": 1500, "timeout_thorough": 3000, "jobs": 4, "mem_gb": 24},
+        # the handle layer (JoinHandle over a partially initialised event loop whose pool is real)
+        {"mounts": [("c02_join.rs", "co_pool/mod.rs"), ("c02_handle.rs", "net/event_loop.rs")], "subs": _C02_SUBS, "cfgs": ["ocv_small"],
+         "harnesses": ["c02_handle_join_of_a_finished_task_returns_its_value_for_every_deadline"],
+         "timeout": 1500, "jobs": 1, "mem_gb": 24},
     ],
 }
 
@@ -325,9 +329,9 @@ PROPS["C12"] = {
     "assumptions": ["E5 verif_sync Mutex/Condvar model", "queue beans pre-created small; model crates"],
     "groups": [
         {"mounts": [("c02_join.rs", "co_pool/mod.rs")], "subs": _C02_SUBS, "cfgs": ["ocv_small"],
-         "harnesses": ["c12_lifecycle_only_moves_forward", "c12_stop_rejects_new_work", "c12_stop_settles_waiters"],
+         "harnesses": ["c12_lifecycle_only_moves_forward", "c12_stop_rejects_new_work", "c12_stop_settles_waiters", "c12_stop_settles_a_waiter_that_polls"],
          "thorough_harnesses": ["c12_running_pool_accepts_work"],
-         "timeout": 1200, "timeout_thorough": 3000, "jobs": 3, "mem_gb": 14},
+         "timeout": 1200, "timeout_thorough": 3000, "jobs": 2, "mem_gb": 28},
     ],
 }
 PROPS["C11"] = {
@@ -353,8 +357,8 @@ PROPS["C13"] = {
     "assumptions": ["E5 verif_sync Mutex/Condvar model", "queue beans pre-created small; model crates"],
     "groups": [
         {"mounts": [("c02_join.rs", "co_pool/mod.rs")], "subs": _C02_SUBS, "cfgs": ["ocv_small"],
-         "harnesses": ["c13_cancel_first_queued_task", "c13_cancel_second_queued_task", "c13_waiter_of_a_cancelled_task_is_not_left_blocked"],
-         "timeout": 1500, "jobs": 3, "mem_gb": 20},
+         "harnesses": ["c13_cancel_first_queued_task", "c13_cancel_second_queued_task", "c13_waiter_of_a_cancelled_task_is_not_left_blocked", "c13_cancel_then_drop_of_the_handle_keeps_the_task_cancelled", "c13_repeated_cancel_of_a_discarded_task_reaches_no_worker"],
+         "timeout": 1500, "jobs": 2, "mem_gb": 30},
     ],
 }
 
@@ -412,6 +416,9 @@ PROPS["C03"] = {
     "groups": [
         {"mounts": [("c03_ws_conc.rs", "common/work_steal.rs")], "atomics": ["common/work_steal.rs"],
          "harnesses": ["c03_ws_global_race"], "timeout": 900},
+        {"mounts": [("c06_ws.rs", "common/work_steal.rs")],
+         "harnesses": ["c03_ws_len_after_shared_first_pop", "c03_ws_len_after_local_overflow"], "timeout": 900,
+         "bounds": "plain queue, sequential: 1 local handle of capacity 2, shared queue pre-filled with 0..=3 items, every tick value that makes the pop consult the shared queue first"},
         {"mounts": [("c03_ows_conc.rs", "common/ordered_work_steal.rs")], "atomics": ["common/ordered_work_steal.rs"],
          # only the push/push pair of the ordered queue fits: the three pairs with a pop (skip-list iteration + injector steal inside the
          # pre-empted operation) ran CBMC out of memory (20 GB) after 170-210 s of symbolic execution; they stay in the harness file
@@ -453,7 +460,7 @@ PROPS["C09"] = {
         {
             "mounts": [("c09_requests.rs", "coroutine/suspender.rs")],
             "harnesses": ["c09_step_plain_suspend", "c09_step_delay", "c09_step_cancel", "c09_step_delay_in_syscall_state",
-                          "c09_step_cancel_in_syscall_state"],
+                          "c09_step_cancel_in_syscall_state", "c09_step_cancel_while_parked_in_syscall"],
             "thorough_harnesses": ["c09_running_state_requests", "c09_syscall_state_requests"],
             "timeout": 900, "timeout_thorough": 3000, "jobs": 6,
         },
